@@ -18,6 +18,7 @@ import shutil
 import struct
 import subprocess
 import sys
+import threading
 import time
 
 VERIF = os.path.dirname(os.path.dirname(os.path.abspath(__file__)))
@@ -387,14 +388,66 @@ class Run:
         open(self.ops_path, "w").write(text)
 
     def exec_impl(self, timeout=3600, env_extra=None):
+        """Runs the real code on the generated cases.  The harness flushes its output after every case; when the output stops
+        growing for VERIF_STALL_S seconds the harness is killed, the case it was working on is recorded in self.hung (its lines
+        read `hang`), and the remaining cases are run in a fresh process - a non-terminating operation must not end the check."""
         env = go_env()
         env.update(env_extra or {})
-        with open(self.ops_path, "rb") as i, open(self.impl_path, "wb") as o:
-            p = subprocess.run([HARNESS_BIN, "exec", "-mon", self.mon_path], stdin=i, stdout=o,
-                               stderr=subprocess.PIPE, env=env, timeout=timeout)
-        self.impl_rc = p.returncode
-        self.impl_err = p.stderr.decode(errors="replace")
-        return p.returncode
+        stall = float(os.environ.get("VERIF_STALL_S", "120" if self.ctx.tier == "quick" else "600"))
+        chunks = [c for c in re.split(rb"(?m)^(?=case )", open(self.ops_path, "rb").read()) if c.strip()]
+        self.hung, self.impl_rc, self.impl_err = [], 0, ""
+        start, t0 = 0, time.time()
+        part_out, part_mon = self.impl_path + ".part", self.mon_path + ".part"
+        with open(self.impl_path, "wb") as out_all, open(self.mon_path, "wb") as mon_all:
+            while start < len(chunks):
+                with open(part_out, "wb") as o:
+                    p = subprocess.Popen([HARNESS_BIN, "exec", "-mon", part_mon], stdin=subprocess.PIPE, stdout=o, stderr=subprocess.PIPE, env=env)
+                    feeder = threading.Thread(target=lambda: (p.stdin.write(b"".join(chunks[start:])), p.stdin.close()), daemon=True)
+                    errbuf = []
+                    reader = threading.Thread(target=lambda: errbuf.append(p.stderr.read()), daemon=True)
+                    feeder.start(); reader.start()
+                    last_size, last_change, killed = -1, time.time(), False
+                    while p.poll() is None:
+                        time.sleep(0.2)
+                        sz = os.path.getsize(part_out)
+                        if sz != last_size:
+                            last_size, last_change = sz, time.time()
+                        elif time.time() - last_change > stall or time.time() - t0 > timeout:
+                            p.kill()
+                            killed = True
+                            break
+                    p.wait()
+                    reader.join(timeout=5)
+                data = open(part_out, "rb").read()
+                if os.path.exists(part_mon):
+                    mon_all.write(open(part_mon, "rb").read())
+                self.impl_err += (errbuf[0] if errbuf else b"").decode(errors="replace")
+                if not killed:
+                    out_all.write(data)
+                    self.impl_rc = p.returncode
+                    break
+                # keep the completed cases (each is flushed whole), mark the next one as hung, go on after it
+                done = [c for c in re.split(rb"(?m)^(?=case )", data) if c.strip()]
+                if done and not data.endswith(b"\n"):
+                    done = done[:-1]
+                ndone = len(done)
+                out_all.write(b"".join(done))
+                hung = chunks[start + ndone] if start + ndone < len(chunks) else None
+                if hung is None:
+                    self.impl_rc = -9
+                    break
+                lines = hung.decode(errors="replace").rstrip("\n").split("\n")
+                idx = lines[0].split(" ")[1] if len(lines[0].split(" ")) > 1 else "?"
+                self.hung.append((idx, lines[1:]))
+                out_all.write(("case %s\n" % idx).encode() + b"".join(b"hang\n" for _ in lines[1:]))
+                start += ndone + 1
+                if time.time() - t0 > timeout or len(self.hung) >= 3:
+                    self.impl_rc = -9
+                    break
+        for f in (part_out, part_mon):
+            if os.path.exists(f):
+                os.remove(f)
+        return self.impl_rc
 
     def exec_model(self, timeout=3600):
         with open(self.ops_path, "rb") as i, open(self.model_path, "wb") as o:
@@ -622,6 +675,15 @@ class Ctx:
         if model:
             r.exec_model()
         r.load()
+        for idx, hops in getattr(r, "hung", []):
+            # an operation of the real code that does not return: a violation in its own right for the properties that speak of
+            # termination (no input hangs the engine / loading always ends / every command finishes), a broken run for the others
+            det = dict(kind="impl-counterexample", domain=domain, seed=seed, case=idx, ops=hops, ops_pretty=[pretty(l) for l in hops],
+                       what="the harness made no progress for the stall limit while executing this case: some operation in it does not terminate", **{"class": "hang"})
+            if self.pid in ("C10", "C15", "C17"):
+                self.hit("hang", "hang: an operation of case %s of domain %s does not terminate (ops: %s)" % (idx, domain, " | ".join(pretty(l) for l in hops[-3:])[:300]), det)
+            else:
+                self.oblige("correspondence:%s:harness-hung(case %s)" % (name, idx), "correspondence", False, det)
         if r.impl_rc != 0:
             self.oblige("correspondence:%s:harness-exit" % name, "correspondence", False, r.impl_err[-2000:])
         if model and r.model_rc != 0:
